@@ -43,6 +43,7 @@ Proof.
 Qed.
 
 Ltac if_true := match goal with |- context [if ?c then _ else _] => destruct c as [?|?]; [|exfalso; try lra] end.
+Ltac split_ifs := repeat match goal with |- context [if ?c then _ else _] => destruct c end.
 Ltac if_false := match goal with |- context [if ?c then _ else _] => destruct c as [?|?]; [exfalso; try lra|] end.
 
 (* a function glued from g (left of a) and h (right of a) that agree at a is continuous at a *)
@@ -128,39 +129,49 @@ Proof.
   rewrite Rpower_inv_exp'; [field; lra| apply Rdiv_lt_0_compat; lra | lra].
 Qed.
 
-(* explicit branch descriptions of the generated functions *)
+(* explicit branch descriptions of the generated functions.  The proofs do not depend on how the source writes the branch
+   conditions at the two knees (`>=` or `>` at P_RAM_Z, `<` or `<=` at N = 1e3 and at N_D): there both branches agree. *)
+Ltac pram_open :=
+  pose proof pram_ND_gt_1000 as HND; pose proof pram_P_at_ND as HPD;
+  assert (Hq : 0 < D / Z) by (apply Rdiv_lt_0_compat; lra);
+  unfold calcP, calcN, ND, pram_calc_P_RAM, pram_calc_N, pram_fatigue_life_limit, pram_fatigue_strength_limit in *; cbv zeta in *;
+  rewrite ?(npow_pos (D / Z)) in * by assumption.
+
 Lemma pram_calcP_low N : 0 < N -> N < 1000 -> calcP N = Z * Rpower (N * (1 / 1000)) d1.
 Proof.
-  intros H0 Hlt. unfold calcP, pram_calc_P_RAM. cbv zeta. if_true. rewrite npow_pos by lra. reflexivity.
+  intros H0 Hlt. pram_open. split_ifs; try (exfalso; lra); rewrite ?npow_pos by lra; reflexivity.
 Qed.
 
 Lemma pram_calcP_mid N : 1000 <= N -> N < ND -> calcP N = Z * Rpower (N * (1 / 1000)) d2.
 Proof.
-  intros H0 Hlt. unfold calcP, pram_calc_P_RAM. cbv zeta. if_false. fold (pram_fatigue_life_limit Z D d1 d2). fold ND.
-  if_true. rewrite npow_pos by lra. reflexivity.
+  intros H0 Hlt. pram_open. split_ifs; try (exfalso; lra); rewrite ?npow_pos by lra; try reflexivity.
+  (* only reachable if the source takes the d_1 branch at N = 1e3 itself *)
+  all: assert (E : N = 1000) by lra; rewrite E; replace (1000 * (1 / 1000)) with 1 by field; rewrite !Rpower_base1; reflexivity.
 Qed.
 
 Lemma pram_calcP_high N : ND <= N -> calcP N = D.
 Proof.
-  intros H0. pose proof pram_ND_gt_1000. unfold calcP, pram_calc_P_RAM. cbv zeta. if_false.
-  fold (pram_fatigue_life_limit Z D d1 d2). fold ND. if_false. reflexivity.
+  intros H0. pram_open. split_ifs; try (exfalso; lra); try reflexivity.
+  (* only reachable if the source takes the sloped branch at N = N_D itself *)
+  all: rewrite ?npow_pos by lra; assert (E : N = 1000 * Rpower (D / Z) (1 / d2)) by lra; rewrite E; exact HPD.
 Qed.
 
 Lemma pram_calcN_high P : Z <= P -> calcN P = Finite (1000 * Rpower (P / Z) (1 / d1)).
 Proof.
-  intros HP. unfold calcN, pram_calc_N. cbv zeta. if_true. if_true. rewrite npow_pos; [reflexivity|].
-  apply Rdiv_lt_0_compat; lra.
+  intros HP. assert (0 < P / Z) by (apply Rdiv_lt_0_compat; lra). pram_open.
+  split_ifs; try (exfalso; lra); rewrite ?npow_pos by assumption; try reflexivity.
+  all: assert (E : P = Z) by lra; rewrite E; replace (Z / Z) with 1 by (field; lra); rewrite !Rpower_base1; reflexivity.
 Qed.
 
 Lemma pram_calcN_mid P : D < P -> P < Z -> calcN P = Finite (1000 * Rpower (P / Z) (1 / d2)).
 Proof.
-  intros HP HPZ. unfold calcN, pram_calc_N. cbv zeta. if_true. if_false. rewrite npow_pos; [reflexivity|].
-  apply Rdiv_lt_0_compat; lra.
+  intros HP HPZ. assert (0 < P / Z) by (apply Rdiv_lt_0_compat; lra). pram_open.
+  split_ifs; try (exfalso; lra); rewrite ?npow_pos by assumption; reflexivity.
 Qed.
 
 (* infinite at and below the endurance value, finite above *)
 Lemma pram_infinite_at_and_below_limit P : P <= D -> calcN P = p_infty.
-Proof. intros HP. unfold calcN, pram_calc_N. cbv zeta. if_false. reflexivity. Qed.
+Proof. intros HP. pram_open. split_ifs; try (exfalso; lra); reflexivity. Qed.
 
 Lemma pram_finite_above_limit P : D < P -> exists n, calcN P = Finite n /\ 0 < n < ND.
 Proof.
@@ -347,26 +358,30 @@ Proof. rewrite praj_ND_eq. apply Rpower_neg_gt1; [apply inv_neg; assumption|appl
 Lemma praj_P_at_ND : Z * Rpower ND d = D.
 Proof. rewrite praj_ND_eq, Rpower_inv_exp'; [field; lra|apply praj_q|lra]. Qed.
 
+Ltac praj_open :=
+  pose proof praj_ND_gt_1 as HND; pose proof praj_P_at_ND as HPD; pose proof praj_q as Hq;
+  unfold calcP, calcN, ND, praj_calc_P_RAJ, praj_calc_N, praj_fatigue_life_limit, praj_fatigue_strength_limit in *; cbv zeta in *;
+  rewrite ?(npow_pos (D / Z)) in * by apply Hq.
+
 Lemma praj_calcP_low N : 0 < N -> N < ND -> calcP N = Z * Rpower N d.
 Proof.
-  intros H0 Hlt. unfold calcP, praj_calc_P_RAJ. cbv zeta. fold (praj_fatigue_life_limit Z D d).
-  unfold praj_fatigue_life_limit at 1. cbv zeta. fold ND in Hlt. unfold ND, praj_fatigue_life_limit in Hlt. cbv zeta in Hlt.
-  if_true. rewrite npow_pos by lra. reflexivity.
+  intros H0 Hlt. praj_open. split_ifs; try (exfalso; lra); rewrite ?npow_pos by lra; reflexivity.
 Qed.
 
 Lemma praj_calcP_high N : ND <= N -> calcP N = D.
 Proof.
-  intros H0. unfold calcP, praj_calc_P_RAJ. cbv zeta. unfold ND, praj_fatigue_life_limit in H0. cbv zeta in H0.
-  if_false. reflexivity.
+  intros H0. praj_open. split_ifs; try (exfalso; lra); try reflexivity.
+  all: rewrite ?npow_pos by lra; assert (E : N = Rpower (D / Z) (1 / d)) by lra; rewrite E; exact HPD.
 Qed.
 
 Lemma praj_calcN_above P : D < P -> calcN P = Finite (Rpower (P / Z) (1 / d)).
 Proof.
-  intros HP. unfold calcN, praj_calc_N. cbv zeta. if_true. rewrite npow_pos; [reflexivity|]. apply Rdiv_lt_0_compat; lra.
+  intros HP. assert (0 < P / Z) by (apply Rdiv_lt_0_compat; lra). praj_open.
+  split_ifs; try (exfalso; lra); rewrite ?npow_pos by assumption; reflexivity.
 Qed.
 
 Lemma praj_infinite_at_and_below_limit P : P <= D -> calcN P = p_infty.
-Proof. intros HP. unfold calcN, praj_calc_N. cbv zeta. if_false. reflexivity. Qed.
+Proof. intros HP. praj_open. split_ifs; try (exfalso; lra); reflexivity. Qed.
 
 Lemma praj_finite_above_limit P : D < P -> exists n, calcN P = Finite n /\ 0 < n < ND.
 Proof.
